@@ -14,6 +14,7 @@ Template language (lines starting with //@@ at top level, //@ inside an fn/type 
     //@ before [k=N] <anchor>   (text inserted before the N-th line whose stripped text starts with anchor)
     //@ after [k=N] <anchor>    (text inserted after the statement line(s) starting at that line)
     //@ body-start / body-end
+    //@ forbid              (regexes that must not match the body after the rewrites; `format!(` is always forbidden)
   //@@ end
   //@@ stub <unit> <src file> | <scope> | <fn name>    (external_body copy of that unit's header)
   //@@ type <src file> | <struct|enum> <Name> [derive=A,B]
@@ -409,6 +410,23 @@ def apply_fn_block(blk, unit_state):
             if hits == 0 and not optional:
                 raise ExtractError('%s: drop pattern matched nothing: %s' % (where(), pat))
 
+    # ---- global R1: tracing statements are dropped wherever they appear (an edit that adds a log line must not
+    # make the unit un-posable); the per-block `drop` lists above remain for the other observability statements
+    rxlog = re.compile(r'^(tracing::)?(trace|debug|info|warn|error)!\s*\(')
+    i = 0
+    while i < len(lines):
+        if lines[i].kind == 'code' and rxlog.match(lines[i].text.strip()):
+            try:
+                e = stmt_end_line(lines, i)
+            except ExtractError:
+                i += 1
+                continue
+            dropped = ' '.join(l.text.strip() for l in lines[i:e + 1])
+            indent = re.match(r'\s*', lines[i].text).group(0)
+            lines[i:e + 1] = [Line(indent + '// [R1 dropped] ' + dropped[:160], lines[i].src, 'inserted')]
+            rules.append({'rule': 'R1-drop-log', 'text': dropped[:120]})
+        i += 1
+
     # ---- rewrites
     def do_rewrite(sarg, slines, regex):
         o, _ = parse_opts(sarg.split())
@@ -460,6 +478,20 @@ def apply_fn_block(blk, unit_state):
         else:
             nl.append(l)
     lines = nl
+
+    # ---- constructs that must not survive the rewrites: `format!` has no meaning for the verifier (rule R5 redirects it
+    # to a shim with an assumed contract); if an edit changed its shape so that the redirection no longer matches, the
+    # question cannot be posed (exit 2) -- letting it through would fail an unrelated clause on behaviour-preserving code.
+    forbid = [r'\bformat!\s*\(']
+    for sarg, slines in sec_by.get('forbid', []):
+        for (pat, no) in slines:
+            if pat.strip() and not pat.strip().startswith('//'):
+                forbid.append(pat.strip())
+    code_now = '\n'.join(l.text.split('//')[0] for l in lines if l.kind in ('code', 'rewritten'))
+    for pat in forbid:
+        mmf = re.search(pat, code_now)
+        if mmf:
+            raise ExtractError('%s: construct `%s` is not redirected by any rewrite of this block' % (where(), mmf.group(0)[:40]))
 
     # ---- compute insertion points on the transformed text
     inserts = []   # (line_idx, col or None, [Line])   col!=None: split line at col
